@@ -87,7 +87,7 @@ def als_func(X_trn, y_trn, A0, a=-1., b=+1., nswp=50, e=1.E-16, info={}, *,
     d = X_trn.shape[1]
     n = [G.shape[1] for G in A0]
 
-    Y = teneva.copy(A0)
+    Y = [np.array(G, dtype=float, order='C') for G in A0]
 
     if fh is None:
         is_cheb = True
